@@ -44,6 +44,29 @@ type bCfg struct {
 	Total     uint64  `json:"disk_total_bytes"`
 	Used      uint64  `json:"disk_used_bytes"`
 	Files     []bFile `json:"files"`
+	// entry directories without a data file (left behind by a failed
+	// MoveFileFrom); only content-addressable layouts list them
+	BadEntries []string `json:"leftover_entry_dirs_without_data,omitempty"`
+	// a file removed by a delete request right after the pass listed the
+	// directory (not judged)
+	RaceVictim string `json:"file_deleted_right_after_listing,omitempty"`
+}
+
+// racingOp is the FileOp handed to the cleanup pass when a delete request
+// races it: the request lands right after the pass has listed the names.
+type racingOp struct {
+	base.FileOp
+	victim string
+	fired  bool
+}
+
+func (o *racingOp) ListNames() ([]string, error) {
+	names, err := o.FileOp.ListNames()
+	if err == nil && !o.fired {
+		o.fired = true
+		_ = o.FileOp.DeleteFile(o.victim)
+	}
+	return names, err
 }
 
 var bModes = []string{"normal-dispatcher", "ttl-pass", "aggressive-ttl-lower", "usage-policy", "dispatcher-aggressive-ttl", "dispatcher-aggressive-policy", "periodic-job"}
@@ -186,6 +209,33 @@ func partB(t *testing.T, run *ev.Run, baseDir string, i int) {
 		cfg.Total = uint64(totalBytes)*uint64(1+r.Intn(4)) + uint64(r.Intn(5000)) + 100
 		cfg.Used = uint64(totalBytes) + uint64(r.Int63n(int64(cfg.Total-uint64(totalBytes))+1))
 	}
+	if cfg.Mode != "periodic-job" {
+		if (cfg.StoreKind == 1 || cfg.StoreKind == 3) && r.Intn(2) == 0 {
+			for k := 0; k < 1+r.Intn(2); k++ {
+				bad := gen.Hex(r, 16)
+				if r.Intn(2) == 0 {
+					bad = "00" + gen.Hex(r, 14) // sorts before (almost) everything
+				}
+				if !seen[bad] {
+					seen[bad] = true
+					cfg.BadEntries = append(cfg.BadEntries, bad)
+				}
+			}
+		}
+		if r.Intn(3) == 0 {
+			var cands []string
+			for _, f := range cfg.Files {
+				if f.Persist != "true" {
+					cands = append(cands, f.Name)
+				}
+			}
+			if len(cands) > 0 && len(cfg.Files) > 3 {
+				sort.Strings(cands)
+				// an early name in listing order, so that files are listed after it
+				cfg.RaceVictim = cands[r.Intn((len(cands)+1)/2)]
+			}
+		}
+	}
 	usage := func() (diskspaceutil.UsageInfo, error) {
 		return diskspaceutil.UsageInfo{Util: int(cfg.Used * 100 / cfg.Total), TotalBytes: cfg.Total, UsedBytes: cfg.Used, FreeBytes: cfg.Total - cfg.Used}, nil
 	}
@@ -236,8 +286,31 @@ func partB(t *testing.T, run *ev.Run, baseDir string, i int) {
 		mt := now.Add(-time.Duration(f.AgeS) * time.Second)
 		must(os.Chtimes(bDataPath(dir, cfg.StoreKind, f.Name), mt, mt), "chtimes")
 	}
+	for _, bad := range cfg.BadEntries {
+		// a failed MoveFileFrom leaves the entry directory (with the
+		// last-access sidecar written by the file map) but no data file
+		if err := op(fs).MoveFileFrom(bad, state, filepath.Join(baseDir, caseID+"-no-such-source")); err == nil {
+			t.Fatalf("%s: MoveFileFrom of a missing source succeeded", caseID)
+		}
+		bd := filepath.Dir(bDataPath(dir, cfg.StoreKind, bad))
+		if _, err := os.Stat(bd); err != nil {
+			// layout did not keep the directory: plant it
+			if err := os.MkdirAll(bd, 0o775); err != nil {
+				t.Fatal(err)
+			}
+		}
+		if _, err := os.Stat(bDataPath(dir, cfg.StoreKind, bad)); err == nil {
+			t.Fatalf("%s: leftover entry has a data file", caseID)
+		}
+	}
 	if cfg.Fresh {
 		fs = newFileStore(cfg.StoreKind, clk) // as after a restart: empty file map
+	}
+	passOp := func() base.FileOp {
+		if cfg.RaceVictim != "" {
+			return &racingOp{FileOp: op(fs), victim: cfg.RaceVictim}
+		}
+		return op(fs)
 	}
 
 	// --- run the pass ---
@@ -253,14 +326,14 @@ func partB(t *testing.T, run *ev.Run, baseDir string, i int) {
 	skipped := false
 	switch cfg.Mode {
 	case "normal-dispatcher":
-		_, perr = m.Cleanup(op(fs), store.VerifC10ApplyDefaults(cc), i%2 == 0)
+		_, perr = m.Cleanup(passOp(), store.VerifC10ApplyDefaults(cc), i%2 == 0)
 	case "ttl-pass":
-		_, perr = m.TTLBasedCleanup(op(fs), time.Duration(effTTI)*time.Second, time.Duration(cfg.TTLs)*time.Second, 0, usage)
+		_, perr = m.TTLBasedCleanup(passOp(), time.Duration(effTTI)*time.Second, time.Duration(cfg.TTLs)*time.Second, 0, usage)
 	case "aggressive-ttl-lower":
-		_, perr = m.TTLBasedCleanup(op(fs), time.Duration(effTTI)*time.Second, time.Duration(effAggrTTL)*time.Second, cfg.Lower, usage)
+		_, perr = m.TTLBasedCleanup(passOp(), time.Duration(effTTI)*time.Second, time.Duration(effAggrTTL)*time.Second, cfg.Lower, usage)
 	case "usage-policy":
 		cc.AggressiveThreshold, cc.AggressiveLowerThreshold = 1, cfg.Lower
-		_, perr = m.CustomPolicyBasedCleanup(op(fs), store.VerifC10ApplyDefaults(cc), usage)
+		_, perr = m.CustomPolicyBasedCleanup(passOp(), store.VerifC10ApplyDefaults(cc), usage)
 	case "dispatcher-aggressive-ttl", "dispatcher-aggressive-policy":
 		// the real dispatcher reads the real disk: aggressive mode is certain
 		// with threshold 1 once the disk is >= 2% full
@@ -278,7 +351,7 @@ func partB(t *testing.T, run *ev.Run, baseDir string, i int) {
 			cc.AggressiveLowerThreshold = []int{0, 1}[i%2]
 			cfg.Lower = cc.AggressiveLowerThreshold
 		}
-		_, perr = m.Cleanup(op(fs), store.VerifC10ApplyDefaults(cc), withPolicy)
+		_, perr = m.Cleanup(passOp(), store.VerifC10ApplyDefaults(cc), withPolicy)
 	case "periodic-job":
 		m.AddJob("c10", cc, op(fs))
 		clk.Add(interval * time.Second)
@@ -313,14 +386,33 @@ func partB(t *testing.T, run *ev.Run, baseDir string, i int) {
 		run.Violation("cleanup/"+sig, caseID, w)
 	}
 	if perr != nil {
-		viol("pass-returned-error/"+cfg.Mode, map[string]interface{}{"err": perr.Error()})
-		return
+		// not a verdict by itself: the files decide
+		w["pass_error"] = perr.Error()
+		run.Count("b_pass_returned_error", 1)
+	}
+	// the file removed by the racing delete request is not judged
+	judgedFiles := cfg.Files
+	if cfg.RaceVictim != "" {
+		judgedFiles = nil
+		for _, f := range cfg.Files {
+			if f.Name != cfg.RaceVictim {
+				judgedFiles = append(judgedFiles, f)
+			}
+		}
+		if _, err := os.Stat(bDataPath(dir, cfg.StoreKind, cfg.RaceVictim)); err == nil {
+			viol("racing-delete-request-did-not-remove-file/"+cfg.Mode, nil)
+			return
+		}
+		run.Count("b_cases_with_delete_racing_the_listing", 1)
+	}
+	if len(cfg.BadEntries) > 0 {
+		run.Count("b_cases_with_leftover_entry_dirs", 1)
 	}
 
 	// --- observe the directory ---
 	deleted := map[string]bool{}
 	var delNames []string
-	for _, f := range cfg.Files {
+	for _, f := range judgedFiles {
 		b, err := os.ReadFile(bDataPath(dir, cfg.StoreKind, f.Name))
 		if err != nil {
 			deleted[f.Name] = true
@@ -347,7 +439,7 @@ func partB(t *testing.T, run *ev.Run, baseDir string, i int) {
 		return (ttl > 0 && f.AgeS > ttl) || (f.HasLAT && f.IdleS > effTTI)
 	}
 	// persisted files are never removed, whatever the pass
-	for _, f := range cfg.Files {
+	for _, f := range judgedFiles {
 		if f.Persist == "true" {
 			if deleted[f.Name] {
 				viol("persisted-file-removed/"+cfg.Mode, map[string]interface{}{"file": f})
@@ -361,7 +453,7 @@ func partB(t *testing.T, run *ev.Run, baseDir string, i int) {
 	switch cfg.Mode {
 	case "normal-dispatcher", "ttl-pass", "dispatcher-aggressive-ttl", "periodic-job":
 		// exact rule (with the TTL in force)
-		for _, f := range cfg.Files {
+		for _, f := range judgedFiles {
 			if f.Persist == "true" {
 				continue
 			}
@@ -385,7 +477,7 @@ func partB(t *testing.T, run *ev.Run, baseDir string, i int) {
 		low := cfg.Total * uint64(cfg.Lower) / 100
 		var sumD, maxD int64
 		allReady := true
-		for _, f := range cfg.Files {
+		for _, f := range judgedFiles {
 			if f.Persist == "true" {
 				continue
 			}
@@ -421,7 +513,7 @@ func partB(t *testing.T, run *ev.Run, baseDir string, i int) {
 		}
 		var cands []cand
 		var sumD, maxD int64
-		for _, f := range cfg.Files {
+		for _, f := range judgedFiles {
 			if deleted[f.Name] {
 				sumD += int64(f.Size)
 				if int64(f.Size) > maxD {
